@@ -138,6 +138,19 @@ func oracleFor(op *Sexp, res string) []string {
 		if fields[3] != strconv.FormatInt(v, 10) || fields[4] != strconv.Itoa(len(ref)) {
 			bad("ReadVarInt(append(%d)) = (%s,%s)", v, fields[3], fields[4])
 		}
+	case "varucap":
+		v, _ := atoiU(arg(1))
+		pre, _ := atoiU(arg(2))
+		prefix := make([]byte, pre)
+		for i := range prefix {
+			prefix[i] = byte(0xA0 + i)
+		}
+		want := hx(append(append([]byte(nil), prefix...), refVarint(v)...)) + " " +
+			hx(append(append([]byte(nil), prefix...), refVarint(refZigZag(int64(v)))...)) + " " +
+			hx(append(append([]byte(nil), prefix...), refVarint((v>>3&(1<<60-1))<<3|v&7)...))
+		if res != want {
+			bad("appending to a buffer holding %s bytes with %s spare: got %s want %s", arg(2), arg(3), res, want)
+		}
 	case "readu":
 		d, _ := unhx(arg(1))
 		v, n := refUvarint(d)
@@ -315,6 +328,12 @@ func runC18(r *Runner, g *Gen, tier string) string {
 	}
 	for _, v := range i64Bounds {
 		r.Do(L(A("vari"), A(strconv.FormatInt(v, 10)), A("x")), v != 0, "vari.boundary")
+	}
+	// appends into buffers with every small amount of spare capacity (in-place fast paths)
+	for _, v := range u64Bounds {
+		for spare := 0; spare <= 12; spare++ {
+			r.Do(L(A("varucap"), A(strconv.FormatUint(v, 10)), A(strconv.Itoa(int(v%3))), A(strconv.Itoa(spare))), true, "varucap.boundary")
+		}
 	}
 	n := scale(tier, 20000, 2000000)
 	for i := 0; i < n; i++ {
